@@ -10,7 +10,9 @@ CONFIG = ledger_config("C33", ["Sky/Props/C33.lean", "Sky/Props/C04.lean"], dict
          "parent advances the follower, known blocks are skipped without stopping the message (sync_step_complete, sync_skips_known). "
          "Tie: the REAL daemon handlers (GiveBlocksMessage/AnnounceBlocksMessage/GetBlocksMessage.process) run against a real follower "
          "visor on delivery schedules with permutation, duplication, loss, splitting, forged and re-signed blocks; verdicts, emitted "
-         "messages and whole state compared per message.",
+         "messages and whole state compared per message; the serving side is also run under outgoing-message limits around the size "
+         "of the full reply and of its first block: what is sent must be a prefix of the blocks asked for whose frame fits the limit "
+         "(gnet refuses longer frames, and the requester would get the same unsendable reply for ever).",
     note="'longest gap-free prefix' is read in arrival order: blocks arriving before their parent are dropped by design, not buffered. "
          "Unforgeability of the publisher signature is a hypothesis of sync_prefix (PubChain, hsig).",
     technique="Lean 4 proof over ledger model + differential correspondence through the real daemon message handlers",
